@@ -460,7 +460,7 @@ def judge(ctx, spec, res, ytext):
 
 def run(ctx, thorough):
     r = common.rng("c02-oracle")
-    nlib = 16 if thorough else 4
+    nlib = 60 if thorough else 10
     rounds = 5 if thorough else 3
     work = common.scratch()
     jobs = []
